@@ -96,11 +96,11 @@ def deconv2d(c, dim, BC, PSF, noise_kind):
     _consistency(c, tp, draws, noise_kind, 0.05, x)
 
 
-def abel(c, dim):
+def abel(c, dim, endpoint=1.0):
     tp, draws = c.pre
     x = c.vec('x', dim)
-    h = 1.0 / dim
-    t = np.linspace(h / 2, 1 - h / 2, dim); s = t + h / 2
+    h = endpoint / dim                                   # mid-point quadrature on [0, endpoint]
+    t = h * (np.arange(dim) + 0.5); s = t + h / 2
     A = np.array([[h / np.sqrt(abs(s[i] - t[j])) if t[j] < s[i] else 0.0 for j in range(dim)] for i in range(dim)])
     c.eq('forward_model_is_documented_abel_quadrature', tp.model.forward(x), A @ x, tol=1e-9, approx=True)
     y = np.asarray(tp.exactData, dtype=float)
@@ -162,6 +162,8 @@ def jobs(tier):
             J.append(Job(f'Deconvolution2D:BC={BC}:PSF=asym3x3:noise={nk}', lambda c, BC=BC, nk=nk: deconv2d(c, 4, BC, a3, nk), 'Pbox', F2,
                          pre=mk('Deconvolution2D', dim=4, PSF=a3, BC=BC, noise_type=nk, noise_std=0.05, phantom=np.abs(np.arange(16.0).reshape(4, 4)) / 16 + 0.2), rtol=1e-7, timeout=600))
     J.append(Job('Abel1D:dim=5', lambda c: abel(c, 5), 'Pbox', [f'{T}:Abel1D.__init__'], pre=mk('Abel1D', dim=5), rtol=1e-7))
+    for ep in ((2.0,) if q else (0.5, 2.0, 3.0)):
+        J.append(Job(f'Abel1D:dim=6:endpoint={ep}', lambda c, ep=ep: abel(c, 6, ep), 'Pbox', [f'{T}:Abel1D.__init__'], pre=mk('Abel1D', dim=6, endpoint=ep), rtol=1e-7))
     J.append(Job('WangCubic', wang, 'Pbox', [f'{T}:WangCubic.__init__'], rtol=1e-6))
     J.append(Job('Poisson1D:dim=8', lambda c: pde_problem(c, 'Poisson1D', 8), 'B', [f'{T}:Poisson1D.__init__'], pre=mk('Poisson1D', dim=8), nnum=3))
     J.append(Job('Heat1D:dim=8', lambda c: pde_problem(c, 'Heat1D', 8), 'B', [f'{T}:Heat1D.__init__'], pre=mk('Heat1D', dim=8), nnum=3))
